@@ -62,6 +62,29 @@ def build(tier, seed):
     return cases
 
 
+def dyn_sources(thorough):
+    """terminating programs that are RUN on the real VM for the dispatch law: constructors that end in the
+    extended SETLIST form with 0 / 1 / 2 trailing values, and a few programs walking over every kind of group"""
+    out = []
+    pre = "local function z() end\nlocal function one() return 1 end\nlocal function two() return 1, 2 end\nlocal function va(...) return {%s} end\n"
+    for n in ((25550, 25551, 25600, 25601, 25650) if thorough else (25551, 25600)):
+        items = ", ".join(["7"] * n)
+        for last, call in (("z()", "z"), ("one()", "one"), ("two()", "two"), ("...", "va"), ("(z())", "pz")):
+            if last == "...":
+                src = (pre % (items + ", ...")) + "local t0, t1 = va(), va(1)\nreturn #t0, #t1\n"
+            else:
+                src = (pre % "...") + "local t = {" + items + ", " + last + "}\nlocal n = #t\nreturn n\n"
+            out.append(("%d/%s" % (n, call), src))
+    for n in (0, 1, 49, 50, 51, 100):
+        items = "".join("7, " for _ in range(n))
+        out.append(("%d/small" % n, (pre % "...") + "local a, b, c = {" + items + "z()}, {" + items + "two()}, va()\nreturn #a, #b\n"))
+    out.append(("groups", "local a, b, c, d, x = 1, 2, 3, 4, true\nlocal u = 0\nfor i = 1, 3 do\nif x then a = b end c = d a = c\n"
+                "local f = function() u = u + i return a, b end\nf()\nif i == 2 then goto cont end\nb = a d = c\n::cont::\nend\n"
+                "for k, v in pairs({1, 2, x = 3}) do u = u + 1 end\nlocal t = {f = function(self, ...) return select('#', ...) end}\n"
+                "u = u + t:f(1, 2, 3)\nlocal s = 'a' .. u .. 'b'\nwhile u > 0 do u = u - 5 if u < 3 then break end end\nrepeat u = u + 1 until u > 2\nreturn s, u\n"))
+    return out
+
+
 def case_source(c):
     if c.get("src") is not None:
         return c["src"]
@@ -71,15 +94,19 @@ def case_source(c):
 # --------------------------------------------------------------------------
 # real compiler -> prototype records
 
-def dump(cases, tag, timeout=900):
-    """compile every case with the real front-end; returns (status by case id, prototype records)"""
+def dump(cases, tag, timeout=900, trace=False):
+    """compile every case with the real front-end; returns (status by case id, prototype records).
+    trace: also RUN it on the real VM and record which code words were dispatched (field dpc)"""
     sd = vlib.subdir("c07")
     inp = os.path.join(sd, "src_%s.ndjson" % tag)
     outp = os.path.join(sd, "protos_%s.ndjson" % tag)
     with open(inp, "w") as f:
         for c in cases:
             f.write(json.dumps({"id": c["id"], "src": case_source(c)}) + "\n")
-    vlib.run_harness(["c07-dump", "--in", inp, "--out", outp, "--j", "6"], timeout=timeout)
+    if trace:
+        vlib.run_harness(["c07-trace", "--in", inp, "--out", outp], timeout=timeout)
+    else:
+        vlib.run_harness(["c07-dump", "--in", inp, "--out", outp, "--j", "6"], timeout=timeout)
     status, protos = {}, []
     with open(outp) as f:
         for line in f:
@@ -193,10 +220,10 @@ def replay_obj(c, p, rule, pc):
     return o
 
 
-def judge(cases, tag, verd, stats, cov):
+def judge(cases, tag, verd, stats, cov, trace=False):
     """compile, validate, reproduce candidates, report.  Returns (status, protos, verdicts)."""
     t0 = time.time()
-    status, protos = dump(cases, tag)
+    status, protos = dump(cases, tag, trace=trace)
     t1 = time.time()
     verdicts = validate(protos, tag, stats)
     t2 = time.time()
@@ -212,7 +239,7 @@ def judge(cases, tag, verd, stats, cov):
                 firsts.append((p, rule, pc))
     if firsts:
         sids = sorted({p["sid"] for p, _, _ in firsts})
-        st2, pr2 = dump([byid[s] for s in sids], tag + "_re")
+        st2, pr2 = dump([byid[s] for s in sids], tag + "_re", trace=trace)
         v2 = validate(pr2, tag + "_re", stats)
         again = {(p["sid"], p["path"]): {r for r, _ in v2[p["id"]]["bad"]} for p in pr2}
         for p, rule, pc in firsts:
@@ -248,10 +275,15 @@ def run(tier):
     giant = [c for c in cases if c["fam"] in ("big-longjump",)]
     normal = [c for c in cases if c["fam"] not in ("big-longjump",)]
     status, protos, verdicts = {}, [], {}
-    for tag, cs in (("main", normal), ("giant", giant)):
+    # VM-side law: a few programs are also RUN; the pcs the real main loop dispatched must be boundaries
+    dyn = []
+    for name, src in dyn_sources(thorough):
+        dyn.append({"id": len(cases) + len(dyn) + 1, "fam": "dyn", "name": name, "src": src, "gen": None})
+    cases = cases + dyn
+    for tag, cs in (("main", normal), ("giant", giant), ("dyn", dyn)):
         if not cs:
             continue
-        st, pr, vs = judge(cs, tag, verd, stats, cov)
+        st, pr, vs = judge(cs, tag, verd, stats, cov, trace=(tag == "dyn"))
         status.update(st)
         off = len(protos)
         for p in pr:
@@ -337,7 +369,7 @@ def replay(path):
     verd = vlib.Verdicts(PROP)
     verd.findings = []
     stats = {"states": 0, "transitions": 0}
-    judge([c], "replay", verd, stats, {"rules_fired": {}})
+    judge([c], "replay", verd, stats, {"rules_fired": {}}, trace=(c["fam"] == "dyn"))
     return verd.finish()
 
 
